@@ -5,7 +5,7 @@
 # /repo and /verif/evidence are not touched.
 tier=${1:-quick}; shift
 VDIR=${VDIR:-/tmp/vdev}
-W=/tmp/mut-me
+W=${W:-/tmp/mut-me}
 export GOFLAGS=-mod=mod GOPROXY=off GOSUMDB=off GOTOOLCHAIN=local
 cd /verif
 names="$*"; [ -z "$names" ] && names=$(ls seeded | grep '^C[0-9]')
